@@ -16,6 +16,8 @@ CONSTANTS
   SweepOnly = FALSE
   SweepA <- FineSweepAs
   SweepB <- FineSweepBs
+  SweepKinds <- AllSweeps
+  ValuePos <- AllPos
   Sim = FALSE
 INIT Init
 NEXT Next
